@@ -41,7 +41,12 @@ fn supertraits(#[allow(unused_variables)] traits: &[Trait]) -> Vec<proc_macro2::
     // When we're educing PartialOrd we can leave it off the Ord impl too,
     // since we *know* Self is going to be PartialOrd.
     #[cfg(feature = "PartialOrd")]
-    if !traits.contains(&Trait::PartialOrd) {
+    let contains_partial_ord = traits.contains(&Trait::PartialOrd);
+
+    #[cfg(not(feature = "PartialOrd"))]
+    let contains_partial_ord = false;
+
+    if !contains_partial_ord {
         supertraits.push(quote! {::core::cmp::PartialOrd});
     };
 
